@@ -90,6 +90,11 @@ def stages(tier, rng, only=None):
         ["ExactCplex(opt)", "ExactCplex(noopt)", "ExactOptim1"])
         + ac.lex_cases(grids.datasets(3, 2)[::9] + [ac.cyclic_dataset(rng, 3, 5) for _ in range(30 if tier == "quick" else 300)],
                        ["Exact(opt)", "Exact(noopt)"], env="standin"), _nt))
+    tenths = [([0, 10, 3, 0, 10, 3], [2, 2, 0, 1, 1, 0], 10), ([0, 3, 1, 0, 2, 1], [2, 2, 0, 3, 3, 0], 10),
+              ([0, 7, 2, 1, 3, 1], [3, 3, 0, 1, 1, 2], 10)]
+    out.append(ac.stage("all_optimal_with_tenths", PID, lambda: ac.cases(
+        grids.datasets(3, 2)[::2] + [ac.cyclic_dataset(rng, 3, 4, incomplete=k % 3 == 2) for k in range(60 if tier == "quick" else 600)],
+        ["ExactCplex(noopt)"], tenths, flags=(0,)), _nt))
     out.append(ac.stage("eleven_plus", PID, lambda: ac.cases(
         [ac.eleven_plus_dataset(rng) for _ in range(6 if tier == "quick" else 40)],
         ["ExactPulp", "Exact(opt)", "Exact(noopt)", "ExactCplex(opt)", "ExactOptim1"], SCHEMES, flags=(1,)), _nt))
